@@ -1,6 +1,6 @@
 """C03 — Operator chains are left-associative with uniform precedence.
 
-Proof: GardenVerif.Props.C03 (`chain_left_assoc`, `paren_overrides_*`) over the parser model M2.
+Proof: GardenVerif.Props.C03 (`chain_left_assoc`, `chain_left_assoc_all`, `paren_overrides_*`) over the parser model M2.
 Tie: the real parser (`ast` hook) vs the Lean model on the REAL token list, on generated chains.
 Direct oracles on the implementation (no model involved):
   * tree oracle: the position-free tree of `x1 op1 x2 … opn xn` is the left fold, and explicit
@@ -194,6 +194,6 @@ def run(ctx):
     ctx.cov["value_chains"] = len(chains)
     ctx.cov["value_chains_checked_against_python_fold"] = n_py
     ctx.assumptions += [
-        "operands of the Lean theorem: integer literals, variables, calls, parenthesised chains (WF true); other "
-        "operand kinds (method calls, dot, ::, strings, floats, lists) are covered by the correspondence run only",
-        "`IntTok (toString i) i` (decimal text of i reads back as i) is a hypothesis of WF.int"]
+        "operands of chain_left_assoc: integer literals (every i64, intTok_of_i64), variables, calls, parenthesised "
+        "chains (WF true); chain_left_assoc_all: every closed operand kind (RT.WT .closed of Props/C33.lean)",
+        "the theorems are about the parser MODEL; this run ties the model to the real parser on the real tokens"]
